@@ -204,6 +204,12 @@ struct JanetVM {
 
 extern JANET_THREAD_LOCAL JanetVM janet_vm;
 
+#ifdef JANET_VERIF
+/* Verification hook H3: an LD_PRELOAD shim may define this symbol to learn the
+ * sandbox flags in force in the calling thread. */
+extern void janet_verif_sandbox_notify(uint32_t flags) __attribute__((weak));
+#endif
+
 #ifdef JANET_NET
 void janet_net_init(void);
 void janet_net_deinit(void);
